@@ -1,11 +1,12 @@
 (* C02 — what one side serialises the other side parses back unchanged (partial).
    Client -> server is a theorem (C02_client_request_parses_back): the request parser model, run on
    what the client serialiser model writes, ends Done exactly at the last byte with the message whose
-   fields are the effects of the components the request was built from.  Server -> client (response
-   writer -> response parser) is not composed end to end: its framing is proved (below and C05) and the
-   end-to-end statement is decided by the live client <-> endpoint correspondence check.  Segmentation
+   fields are the effects of the components the request was built from.  Server -> client is a theorem
+   for fixed-length responses (C02_server_response_fields); streamed (chunked) responses are not
+   composed with the response parser's chunk loop (C05_stream_decodes uses an independent reader) and
+   are decided by the live client <-> endpoint correspondence check.  Segmentation
    independence of the parser result is C01; typed header, cookie and media type values are C16-C18. *)
-From Coq Require Import Ascii String List NArith Arith.
+From Coq Require Import Ascii String List NArith ZArith Arith.
 Require Import Bytes NumParse Restartable ParserModel WireModel WireLemmas RoundTripLemmas.
 Import ListNotations.
 
@@ -78,6 +79,27 @@ Theorem C02_distinct_keys_keep_all : forall (A : Type) (same : A -> A -> bool) (
   capply A same acc (map (fun a => CIns a) l) = acc ++ l.
 Proof. exact @capply_distinct. Qed.
 Print Assumptions C02_distinct_keys_keep_all.
+
+(* Server -> client, fixed-length responses: for every status code, list of application headers
+   (unregistered names), list of Set-Cookie values the cookie parser reads (cookie_ok: C17) and body,
+   the response parser model run on what ResponseWriter::putOnWire writes ends Done exactly at the
+   last byte with the same status, cookies, headers and body. *)
+Theorem C02_server_response_fields :
+  forall typed_other set_cookie code hs cks body,
+    (code < 2147483648)%N -> Forall plain_header hs -> Forall (fun ck => cookie_ok set_cookie (fst ck) (snd ck)) cks ->
+    (N.of_nat (length body) <= 18446744073709551615)%N ->
+    exists st,
+      whole typed_other set_cookie KResponse (render_response code hs (map fst cks) body) = (PDone, st)
+      /\ p_cur st = length (render_response code hs (map fst cks) body)
+      /\ m_code (p_msg st) = Z.of_N code
+      /\ m_cookies (p_msg st) = capply _ same_pair [] (map (fun ck : bytes * (bytes * bytes) => CIns (snd ck)) cks)
+      /\ m_raw (p_msg st) = capply _ same_ci []
+           (map (fun h : bytes * bytes => CIns h)
+                (hs ++ map (fun ck : bytes * (bytes * bytes) => (list_of_string "Set-Cookie", fst ck)) cks
+                 ++ [(list_of_string "Content-Length", print_dec (N.of_nat (length body)))]))
+      /\ m_body (p_msg st) = body.
+Proof. exact server_response_fields. Qed.
+Print Assumptions C02_server_response_fields.
 
 (* non-vacuity: a concrete request meets the hypotheses; evaluated with the executable instance *)
 Require Import ParserInst.
